@@ -550,6 +550,14 @@ C10_noerror(c, G, o) ==
 
 C10_clock(c, G, o) == IsExec(o) => \A j \in DOMAIN o.mt : o.mt[j] = o.clk
 
+(* C14, second sentence: a SynchronizedClock (the listeners read one at every delivery, a bound *)
+(* property statechart runs on one) always shows the time of the interpreter's current step    *)
+C14_sync(c, G, o) ==
+  IsExec(o) => /\ \A j \in DOMAIN o.mt : o.mt[j] = o.clk
+               /\ \A j \in DOMAIN o.log : IsMeta(o.log[j]) => o.log[j].t = o.clk
+               /\ \A j \in DOMAIN o.l2 : o.l2[j].t = o.clk
+               /\ o.post.time = o.clk
+
 -----------------------------------------------------------------------------
 (* The set of failing clauses, as <<property, clause>> pairs                *)
 Check(name, ok) == IF ok THEN {} ELSE {name}
@@ -594,6 +602,7 @@ Bad(c, G, o) ==
     Check(<<"C10", "noerror">>, C10_noerror(c, G, o)),
     Check(<<"C10", "clock">>, C10_clock(c, G, o)),
     Check(<<"C10", "nomon">>, Rel("nomon", o)),
+    Check(<<"C14", "sync">>, C14_sync(c, G, o)),
     Check(<<"C11", "reimport">>, Rel("reimport", o)),
     Check(<<"C17", "rename">>, Rel("rename", o)),
     Check(<<"C18", "fork">>, Rel("fork", o)),
